@@ -558,6 +558,66 @@ func ruleC09CloseChains(c *Ctx) {
 			c.ok("cache.Close/drain", u.pos(cc.Pos()), "returns only via the already-closing edge or after the `size > 0` loop (which evicts each iteration) has exited")
 		}
 	}
+
+	// (e) the key cache's generic cache is built with an eviction callback that closes the evicted entry's key on every path
+	if nkc := u.Func(pkgApp, "newKeyCache"); nkc == nil {
+		c.unresolved("newKeyCache", "function")
+	} else {
+		cg := newCallGraph(u)
+		var builds, withEvict []ssa.Instruction
+		cbs := map[*ssa.Function]bool{}
+		allInstrs(nkc, func(i ssa.Instruction) {
+			g := staticCallee(i)
+			if g == nil || g.Pkg == nil || g.Pkg.Pkg.Path() != pkgCache {
+				return
+			}
+			switch g.Name() {
+			case "Build":
+				builds = append(builds, i)
+			case "WithEvictFunc":
+				withEvict = append(withEvict, i)
+				for f := range cg.funcValues(callOf(i).Args[1], nil, 0) {
+					cbs[f] = true
+				}
+			}
+		})
+		for _, b := range builds {
+			ok := false
+			for _, w := range withEvict {
+				if instrDominates(w, b) {
+					ok = true
+				}
+			}
+			c.check(ok && len(cbs) > 0, "newKeyCache/evict-callback-installed", u.ipos(b), "WithEvictFunc(<callback>) precedes Build on every path", "the key cache's generic cache is built without an eviction callback: evicted keys are never closed (their protected memory leaks)")
+		}
+		if len(builds) == 0 {
+			c.unresolved("newKeyCache/Build", "no cache Build call in newKeyCache")
+		}
+		for cb := range cbs {
+			c.FuncsAnalysed[shortName(cb)] = true
+			if len(cb.Params) < 2 || cb.Blocks == nil {
+				c.undecided(trimPkgDirs(shortName(cb))+"/closes-evicted-key", u.pos(cb.Pos()), "callback shape not recognised")
+				continue
+			}
+			val := "P:" + cb.Params[1].Name()
+			ok, tr := mustPass(cb.Blocks[0], 0, func(i ssa.Instruction) bool {
+				cc := callOf(i)
+				if cc == nil || methodNameOf(cc) != "Close" {
+					return false
+				}
+				if _, isGo := i.(*ssa.Go); isGo {
+					return false
+				}
+				rv := receiverOf(cc)
+				return rv != nil && strings.HasPrefix(trimAddr(accessPath(rv)), val+".key")
+			}, nil)
+			if ok {
+				c.ok(trimPkgDirs(shortName(cb))+"/closes-evicted-key", u.pos(cb.Pos()), "value.key.Close() on every path")
+			} else {
+				c.bad(trimPkgDirs(shortName(cb))+"/closes-evicted-key", u.pos(cb.Pos()), "the key cache's eviction callback has a path that does not close the evicted entry's key: keys leaving the cache by eviction or at cache Close keep their protected memory forever", u.tracePositions(tr)...)
+			}
+		}
+	}
 }
 
 func sizePositive(v ssa.Value) bool {
